@@ -337,13 +337,6 @@ def oracle_dict(arg, out):
         elif t == O_SETDEFAULT:
             if row:
                 exp = [0, [1, row[2]]]
-            elif cls == DEFAULT and not o and op[2] == dflt:
-                break       # unobserved step on which the two accepted readings cannot be told apart
-            elif cls == DEFAULT and r == [0, [1, dflt]] and (not o or o[1] == [0, ref.items()]) and (op[2] != dflt or o):
-                # finding C13-F4: the reference map inserts op[2] and returns it; the defaulting variant returns
-                # its factory default and does not insert.  The state is unchanged: the comparison goes on.
-                known.append('[C13-F4] %s: returned the factory default %r and did not insert' % (name, dflt))
-                exp = r
             else:
                 ref.set(k, op[2]); exp = [0, [1, op[2]]]
         elif t == O_UPDATE:
@@ -577,7 +570,7 @@ def random_set_history(rng, maxlen):
 
 
 PINNED = [
-    # the inputs of the repaired findings C13-F1, C13-F2, C13-F3 (regression) and of the open finding C13-F4
+    # the inputs of the repaired findings C13-F1 .. C13-F4 (regression)
     ('pinned', 1, [DEFAULT, 0, [], [[O_SETDEFAULT, 'k', 5]], ['k'], 0]),
     ('pinned', 1, [DEFAULT, 0, [], [[O_SET, 'A', 1], [O_LOWER], [O_GET, 'zz'], [O_SET, 'B', 2], [O_POP, 'x', [9]], [O_POP, 'a', [9]]], ['a', 'b', 'zz'], 0]),
     ('pinned', 1, [DEFAULT, 0, [], [[O_SET, 'A', 1], [O_LOWER]], ['a', 'b'], 0]),
@@ -681,10 +674,7 @@ def gen(tier, rng):
 
 # ---------------------------------------------------------------------------------------------
 # known findings (known_findings.d/C13.json)
-def _f4(kind, fn, arg, detail):   # CaseInsensitiveDefaultDict.setdefault(absent, x)
-    return (kind == 'oracle' and fn == 1 and isinstance(detail, str) and detail.startswith('[C13-F4]')
-            and arg[0] == DEFAULT and any(o[0] == O_SETDEFAULT for o in arg[3]))
-KNOWN_SIGNATURES = {'C13-F4': _f4}
+KNOWN_SIGNATURES = {}
 
 def replay_known(finding):
     p = finding.get('pinned')
@@ -749,7 +739,6 @@ ASSUMPTIONS = ['lower is idempotent: lower (lower k) = lower k (hypothesis of th
                'boolean key equality decides equality (proved for the extracted instance str_eqb)',
                'correspondence domain: keys are ASCII strings plus caseless non-ASCII symbols; non-ASCII letters are outside the compared domain (the theorems are about an abstract key type and do not depend on it)',
                'set iteration order (hash order) is unobservable: iterations of the set are compared sorted, and MutableSet.pop is modelled as "removes some element" (the element the implementation popped is passed to the model, which checks it is a member)']
-PARTIAL = ['default_run_refines_partial: the defaulting variant is proved to refine the reference map on every history (lower(), pop with/without default, get ... included) that does not call setdefault on a then-absent key; the full statement is refuted (default_setdefault_refuted = known finding C13-F4); what the class does there is stated exactly by default_run_refines_quirks (every history) and default_get_setdefault_no_insert',
-           'the reference map of the defaulting variant answers get(k, d) of an absent key with the factory default ("yields its default for absent keys"), as the code does; the oracle accepts d as well',
+PARTIAL = ['no theorem is partial.  The reference map of the defaulting variant answers get(k, d) of an absent key with the factory default ("yields its default for absent keys"), as the code does (default_get_no_insert); the oracle accepts d as well',
            'repr is modelled, proved and compared as the data it prints, not as text; set iteration order, the element returned by set.pop() and the item returned by popitem() are not fixed by the oracle',
            'not modelled: __eq__, update(**kwargs), &=, ^= and the binary set operators (outside the operation list of the property)']
